@@ -16,6 +16,11 @@ A call tree is a JSON-able dict per node:
         functools.partial of a function, callable object)
   take: None | int   (generator callees, v in gen / genmeth) the consumer resumes the generator only `take` times and then
         keeps it suspended until the end of the thread; such trees are judged by the direct oracle only
+  exc : 'boom' | 'frozen' | 'setattr' | 'base' | 'basesetattr'   class of the exception the node raises (c16_bodies.EXC): a frozen
+        dataclass, one whose __setattr__ raises, BaseException subclasses; all are caught by catching ancestors like Boom
+  over: list of wrappers composed OVER this node's callable on the same function object, outermost first:
+        'dnc' | 'unspec' | ['conv', ur]   e.g. ['dnc'] on a conv node = do_not_convert(convert(...)(f)); such trees are judged
+        by the direct oracle only
   ch  : children, ra : None | int (raise Boom before child `ra`, or after the last one if ra == len(ch)), ca : catches Boom
 
 Nothing here needs Lean.
@@ -76,6 +81,17 @@ class _Malt(object):
 
     # ------------------------------------------------------------------ node -> real callable (env, path) -> None
     def callable_for(self, nd):
+        f = self._callable_base(nd)
+        for w in reversed(nd.get('over') or []):
+            if w == 'dnc':
+                f = self.api.do_not_convert(f)
+            elif w == 'unspec':
+                f = self.api.call_with_unspecified_conversion_status(f)
+            else:
+                f = self.api.convert(recursive=True, optional_features=None, user_requested=bool(w[1]))(f)
+        return f
+
+    def _callable_base(self, nd):
         api, ag_ctx, fw, malt = self.api, self.ag_ctx, self.fw, self.malt
         k, v = nd['k'], nd.get('v', 'for')
         body = self.bodies[v]
@@ -259,12 +275,12 @@ class Env(object):
 
     def step(self, nid, i):
         if self.nodes[nid]['ra'] == i:
-            raise B.Boom('@%s@' % '.'.join(map(str, nid)))
+            raise B.EXC[self.nodes[nid].get('exc', 'boom')]('@%s@' % '.'.join(map(str, nid)))
 
     def last(self, nid):
         nd = self.nodes[nid]
         if nd['ra'] == len(nd['ch']):
-            raise B.Boom('@%s@' % '.'.join(map(str, nid)))
+            raise B.EXC[nd.get('exc', 'boom')]('@%s@' % '.'.join(map(str, nid)))
 
     def handle(self, nid):
         if self.nodes[nid]['ca']:
@@ -348,7 +364,7 @@ def classify(e):
 
 
 def _classify(e):
-    if isinstance(e, B.Boom):
+    if isinstance(e, B.CATCHABLE):
         m = re.search(r'@([\d.]*)@', str(e))
         return ['boom', [int(x) for x in m.group(1).split('.') if x] if m else None]
     if isinstance(e, AssertionError):
@@ -463,6 +479,19 @@ def expected_inside(nd, parent):
     k = nd['k']
     if is_gen(nd) or parent is None:
         return None
+    # wrappers composed over the callable, outermost first: each hands an *artifact* on (called as it is), so a `convert`
+    # among them enters nothing of its own; do_not_convert / the unspecified wrapper enter their context
+    over = nd.get('over') or []
+    for w in over:
+        if w == 'dnc':
+            parent = ('FRESH', 'D')
+        elif w == 'unspec':
+            parent = ('FRESH', 'U')
+    inner_artifact = not (k == 'plain' or (k == 'ctx' and nd.get('via') == 'src'))
+    if over and isinstance(over[-1], list) and not inner_artifact and parent[1] != 'D':
+        # the innermost composed wrapper is a convert() directly over the plain function: it converts it
+        if over[-1][1]:
+            parent = ('FRESH', 'E')
 
     def conv(ur, c, feat):
         cap = captured(c, parent)
@@ -471,6 +500,12 @@ def expected_inside(nd, parent):
         if feat:
             return None                              # the function scope refuses: the body does not run
         return ('fresh', 'E') if ur else ('same',) + cap
+    if over and k in ('plain', 'fs') or (over and k == 'ctx' and nd.get('via') == 'src'):
+        if k == 'fs':
+            return ('fresh', 'E') if nd['ur'] and not nd.get('feat') else (None if nd.get('feat') else ('same',) + parent)
+        if k == 'ctx':
+            return ('fresh', nd['st'])
+        return ('same',) + parent
     if k == 'dnc':
         return ('fresh', 'D')
     if k == 'unspec':
@@ -547,13 +582,15 @@ def oracle(env, clog):
         exp = expected_inside(nd, (parent[0][1], parent[0][2]) if parent else None)
         if exp is not None:
             got = (obs[0][1], obs[0][2])
+            if exp[0] == 'same' and exp[1] == 'FRESH':
+                exp = ('fresh', exp[2])
             if exp[0] == 'same' and got != (exp[1], exp[2]):
                 probs.append('%s node %s (ctx argument %s): its body must run in the context object %s/%s, but sees %s/%s' % (
                     nd['k'], list(owner), nd.get('c'), exp[1], exp[2], got[0], got[1]))
             elif exp[0] == 'fresh' and (got[1] != exp[1] or not got[0].startswith('F') or (parent and got[0] == parent[0][1])):
                 probs.append('%s node %s (ctx argument %s): its body must see a context of its own with status %s, but sees %s/%s' % (
                     nd['k'], list(owner), nd.get('c'), exp[1], got[0], got[1]))
-        want = required_status(nd, outer)
+        want = None if nd.get('over') else required_status(nd, outer)      # composed wrappers: judged by expected_inside
         if want is not None and obs[0][2] != want:
             probs.append('status inside %s node %s is %s, must be %s' % (nd['k'], list(owner), obs[0][2], want))
     if env.outcome[0] not in ('ok', 'boom', 'rejected'):
